@@ -129,8 +129,9 @@ def gen_rotate(rng, o, N, forms=FORMS, max_vec=4, wild=True, alias=False):
             return a if k > 1 else a[0]
 
         op["seq"] = seq
-        # vector input for a single axis is given with shape (n,1): the installed SciPy rejects (n,)
-        op["angle"] = one() if scalar else [(one() if k > 1 else [one()]) for _ in range(n)]
+        # vector input for a single axis: the documented shape (n,) or, equivalently, (n,1)
+        flat = rng.random() < 0.5
+        op["angle"] = one() if scalar else [(one() if (k > 1 or flat) else [one()]) for _ in range(n)]
         op["degrees"] = rng.random() < 0.7
     else:
         op["rv"] = gen.rotvec_deg(rng) if scalar else gen.rotvecs(rng, n)
@@ -242,6 +243,8 @@ def op_nvec(op):
             if is_selfpos(v) or is_posof(v) or isinstance(v, str):
                 return 0
             if op.get("form") == "euler":
+                if isinstance(v, list) and v and not isinstance(v[0], list) and len(op["seq"]) == 1:
+                    return len(v)  # (n,) angles about a single axis
                 return len(v) if isinstance(v, list) and isinstance(v[0], list) else 0
             if isinstance(v, list) and v and isinstance(v[0], list):
                 return len(v)
@@ -277,7 +280,10 @@ def rotation_of(op):
             return R.from_rotvec(ax * float(ang_rad))
         return R.from_rotvec(np.outer(ang_rad, ax))
     if form == "euler":
-        return R.from_euler(op["seq"], op["angle"], degrees=op.get("degrees", True))
+        ang = op["angle"]
+        if len(op["seq"]) == 1 and isinstance(ang, list) and not isinstance(ang[0], list):
+            ang = [[a] for a in ang]  # n rotations about the one axis (SciPy versions differ on the flat form)
+        return R.from_euler(op["seq"], ang, degrees=op.get("degrees", True))
     return R.from_rotvec(_rv(op), degrees=True)
 
 
